@@ -510,9 +510,40 @@ static inline void k_shutdown_prefix() {
   }
 }
 
-// constructor part of ThreadPool that matters here (thread_pool.cpp:108-120); out of line = no preemption
+// constructor part of ThreadPool that matters here (thread_pool.cpp:108-120); out of line = no preemption.
+// The REAL PoolWakeState constructor runs and computes every field and table.  Its four heap arrays are
+// then re-seated onto typed static storage with identical contents (checked below): the constructor
+// value-initialises the blocks through byte-wise memset, which leaves CBMC with untyped byte arrays
+// (every later atomic access becomes a byte_extract over the whole block; symbolic execution does not
+// finish).  Layout/content of the objects is unchanged; only their storage moves.
+static constexpr int kNumGroups = (VF_N + VF_G - 1) / VF_G;
+static dd::WaiterBlock g_wb[kNumGroups];
+static dd::GroupWakeState g_gs[kNumGroups];
+static int32_t g_nextGroup[kNumGroups];
+static int32_t g_cascadeTargets[VF_N];
+
 VF_NOINLINE static void k_build() {
   WS = new (&g_ws_holder.ws) dd::PoolWakeState(VF_N, VF_G, VF_BF);  // REAL
+  vf_check(WS->numGroups() == kNumGroups && (int)WS->cascadeTargets_.size() == VF_N, "kernel: group count as expected");
+  for (int g = 0; g < kNumGroups; ++g) {
+    vf_check(WS->waiterBlocks_[g].waiter.current() == 0 && g_wb[g].waiter.current() == 0 &&
+                 WS->groupStates_[g].sleepMask.load() == 0 && g_gs[g].sleepMask.load() == 0,
+             "kernel: re-seated wake blocks equal the constructed ones");
+    g_nextGroup[g] = WS->nextGroupTable_[g];
+  }
+  for (int i = 0; i < VF_N; ++i) {
+    g_cascadeTargets[i] = WS->cascadeTargets_[i];
+  }
+  (void)WS->waiterBlocks_.release();
+  WS->waiterBlocks_.reset(g_wb);
+  (void)WS->groupStates_.release();
+  WS->groupStates_.reset(g_gs);
+  (void)WS->nextGroupTable_.release();
+  WS->nextGroupTable_.reset(g_nextGroup);
+  WS->cascadeTargets_._M_impl._M_start = g_cascadeTargets;
+  WS->cascadeTargets_._M_impl._M_finish = g_cascadeTargets + VF_N;
+  WS->cascadeTargets_._M_impl._M_end_of_storage = g_cascadeTargets + VF_N;
+
   for (int i = 0; i < VF_N; ++i) {
     k_running_[i].store(true, std::memory_order_relaxed);
     g_ring_target[i] = -1;
